@@ -45,6 +45,38 @@ def published_forms(ctx, cname, cm):
                    "shared element is %s, published: x*(In - w*%s)" % (ip.elem(Ke).show(ip.names()) if Ke is not None else None, unblind), o.site)
 
 
+def defaults(ctx, world, ev):
+    """S-defaults: an identity argument that is omitted means the empty string (released API: a peer that omits
+    idA/idB/idSymmetric interoperates with one that passes b"").  Decided by constructing each class twice on the
+    same state - identities omitted, identities b"" - and comparing the two instances field by field."""
+    for cname in session.PUBLIC_CLASSES:
+        cls = session.public_class(world, ev, cname)
+        st0, params = session.build_params(world, ev, world.static.fork())
+        kw, syms = session.ctor_args(cls, params)
+        ids = [n for (n, v) in kw if n.startswith("id")]
+        first = ev.next_oid[0]
+        ra = session.rets(ev.run(cls, [], [(n, v) for (n, v) in kw if n not in ids], st0.fork()))
+        rb = session.rets(ev.run(cls, [], [(n, Const(b"") if n in ids else v) for (n, v) in kw], st0.fork()))
+        init = cls.lookup("__init__")
+        site = (init[2].mod.relpath, init[1].lineno, cname + ".__init__") if init and init[0] == "func" else None
+        if len(ra) != 1 or len(rb) != 1:
+            ctx.ob("S-defaults", cname, False, "%s cannot be constructed without identity arguments (%d / %d construction paths)" % (cname, len(ra), len(rb)), site)
+            continue
+
+        def same(sa_, a, sb_, b, depth=0):
+            if isinstance(a, Obj) and isinstance(b, Obj) and a.oid >= first and b.oid >= first and depth < 4:
+                fa, fb = sa_.heap[a.oid], sb_.heap[b.oid]
+                return a.cls is b.cls and set(fa) == set(fb) and all(same(sa_, fa[k], sb_, fb[k], depth + 1) for k in fa)
+            return a == b
+        diff = []
+        fa, fb = ra[0].state.heap[ra[0].value.oid], rb[0].state.heap[rb[0].value.oid]
+        for k in sorted(set(fa) | set(fb)):
+            if k not in fa or k not in fb or not same(ra[0].state, fa[k], rb[0].state, fb[k]):
+                diff.append("%s: %s / %s" % (k, show(fa.get(k), maxdepth=3) if k in fa else "-", show(fb.get(k), maxdepth=3) if k in fb else "-"))
+        ctx.ob("S-defaults", cname, not diff, "omitting %s gives the same instance as passing b\"\"" % "/".join(ids) if not diff else
+               "an omitted identity is not the empty string (field: omitted / b\"\"): %s" % diff, site)
+
+
 def check(ctx, world):
     ctx.explanation = (
         "Comparison of normal forms and folded constant values with the released 0.7+ wire format. Own facts: the start() "
@@ -63,6 +95,7 @@ def check(ctx, world):
                 ctx.ob("S1", cname, ok, "start() = %r + element.to_bytes()" % SIDE[cname] if ok else
                        "start() message is %s" % show(v, maxdepth=4), s.site)
             published_forms(ctx, cname, cm)
+    defaults(ctx, world, ev)
     sp = gm.shipped_params(world, ev)
     S = c18.spec()["message_lengths"]
     for label, (pobj, g) in sorted(sp.items()):
@@ -78,7 +111,7 @@ def check(ctx, world):
     include(ctx, world, "c08", "C08", keep=lambda o: o.rule in ("Z4", "Z3-total"))
     # the element operations the protocol uses compute the group operation and handle the identity
     # (otherwise encode(x*(In - w*N)) is not the published K for the inputs that reach those cases)
-    include(ctx, world, "c13", "C13", keep=lambda o: o.rule in ("G1-add", "G1-scalarmult", "G1-zero", "G3-sum", "G3-modL", "G3-identity", "G6", "G7")
+    include(ctx, world, "c13", "C13", keep=lambda o: o.rule in ("G1-add", "G1-scalarmult", "G1-zero", "G3-sum", "G3-modL", "G3-identity", "G6", "G7", "G7-repr")
             or o.rule.startswith("G5/") or (o.rule == "G3-closure" and (o.instance.startswith("add(") or o.instance.startswith("scalarmult("))))
     include(ctx, world, "c12", "C12", keep=lambda o: o.rule.endswith("-law") or o.rule.endswith("-denominator") or o.rule == "P4")
     # B3 of C02: the password reaches the scalar unmodified (a wire-visible derivation)
